@@ -11,10 +11,15 @@
     channel/controller numbers are not negative) and stay clear of the undefined behaviour
     of createBinding/setSlotSubPath (unchecked indices).
   * float arithmetic: the bookkeeping theorems hold for every `Arith`; range and monotonicity
-    hold for every `Arith` satisfying the order laws `Laws` (a hypothesis; IEEE arithmetic
-    on finite values and exact arithmetic satisfy them); the linear map is exact over `Rat`.
+    hold for every `Arith` satisfying the order laws `Laws` (a hypothesis); the laws are
+    proved for exact rational arithmetic (`exact_laws`) and for the IEEE-754 binary32/64
+    round-to-nearest-even arithmetic of the executable model that the correspondence check
+    compares bit for bit with the compiled code (`ieee_model_laws`; finite values, no
+    overflow; libm's logf enters as a monotone table, expf as a monotone function).  The
+    linear map is exact over `Rat`.
 -/
 import RtoscModel.Proofs.AutoLemmas
+import RtoscModel.Proofs.AutoFloatLemmas
 namespace Rtosc.Auto
 open Rtosc
 variable {F : Type}
@@ -148,10 +153,21 @@ theorem default_gain_linear (n p : Nat) (m : Mgr Rat) (hr : Reachable exact n p 
   rw [hg, ho] at hcp
   exact emit_default_linear au x hu hty hl hcp (by simpa [exact] using hm) hx0 hx1
 
+/-- **ieee_model_laws**: the arithmetic the driver runs (IEEE-754 rounding over `Rat`,
+    RtoscModel/AutoFloat.lean) satisfies `Laws`, for every table of `logf` values; hence
+    `emit_in_range_right_type` and `emit_monotone` hold of the very model that is compared
+    bit for bit with the implementation. -/
+theorem ieee_model_laws (tab : List (Rat × Rat)) : Laws (IEEE.ieee tab) := IEEE.ieee_laws tab
+
 /-! ### Non-vacuity -/
 
 /-- the order laws are satisfiable: exact rational arithmetic has them -/
 example : Laws exact := exact_laws
+
+/-- integer-valued bounds are fixed by `(int)roundf(·)`, so for such parameters `MsgOK`
+    bounds the emitted integer by min and max themselves -/
+example : exact.toInt (exact.roundf (127 : Rat)) = 127 ∧ exact.toInt (exact.roundf (-64 : Rat)) = -64 := by
+  decide +kernel
 
 def exPortF : PortInfo Rat :=
   { hasF := true, hasT := false, min := some (-1), max := some 10, logmin := none,
